@@ -424,3 +424,88 @@ pub fn classify_late(d: &Digest, p: &PipeResult, s: StoreIx, report_known: bool,
         }
     }
 }
+
+
+/// One `SelectorSubscriber` object registered on several stores: its notifications arrive on
+/// several reducer threads and are serialised by the object's own lock. Exact oracle without
+/// knowing that order: the callback log (written under the lock, so in lock order) must be
+/// explainable by *some* serialisation that respects each store's own notification order -
+///  * every delivery carries the value selected from the state of the action it names, and no
+///    notification is delivered twice;
+///  * deliveries never repeat the value delivered last;
+///  * a notification that was *not* delivered must have met its own value as the value delivered
+///    last: between the deliveries of its store's neighbouring notifications there is a delivery
+///    of exactly that value (and a notification before the very first delivery is never silent).
+/// A dropped, duplicated or invented notification breaks one of the three.
+pub fn shared_selector_check(d: &Digest, sub: SubId) -> Vec<String> {
+    let (scn, h) = (d.scn, d.h);
+    let mut viol = vec![];
+    // notifications per store in that store's own order: (action, value). The action is the one
+    // whose pipeline run (on that store's reducer thread) contains the selector call.
+    let mut per_store: std::collections::BTreeMap<StoreIx, Vec<(ActId, u64)>> = Default::default();
+    let fresh = matches!(scn.sub(sub).kind, SubKind::SelectorObj { fresh: true } | SubKind::Selector { fresh: true });
+    for (pos, r) in h.recs.iter().enumerate() {
+        if let Ev::SelIn { sub: x, st } = &r.ev {
+            if *x == sub {
+                let found = d.stores.iter().enumerate().find_map(|(s, sd)| {
+                    if sd.red_tid != Some(r.tid) {
+                        return None;
+                    }
+                    sd.runs.iter().find(|run| run.first <= pos && pos <= run.last).map(|run| (s, run.act))
+                });
+                let Some((s, a)) = found else {
+                    viol.push(format!("selector object {} was called at @{} outside any action's pipeline run", sub, pos));
+                    continue;
+                };
+                per_store.entry(s).or_default().push((a, if fresh { st.h } else { st.sel as u64 }));
+            }
+        }
+    }
+    let delivered: Vec<(u64, ActId)> = h.recs.iter().filter_map(|r| match &r.ev {
+        Ev::SelCb { sub: x, val, act } if *x == sub => Some((*val, *act)),
+        _ => None,
+    }).collect();
+    let total: usize = per_store.values().map(|v| v.len()).sum();
+    if total > 0 && delivered.is_empty() {
+        viol.push(format!("selector object {} was notified {} times but never called its callback (the first notification must be delivered)", sub, total));
+        return viol;
+    }
+    let mut seen = std::collections::HashSet::new();
+    for (v, a) in &delivered {
+        let store = scn.actions[*a as usize].store;
+        match per_store.get(&store).and_then(|n| n.iter().find(|(x, _)| x == a)) {
+            None => viol.push(format!("selector object {} delivered value {} for action {}, of which it was never notified", sub, v, a)),
+            Some((_, nv)) if nv != v => viol.push(format!("selector object {} delivered value {} with action {}, whose state selects {}", sub, v, a, nv)),
+            _ => {}
+        }
+        if !seen.insert(*a) {
+            viol.push(format!("selector object {} delivered action {} twice", sub, a));
+        }
+    }
+    for w in delivered.windows(2) {
+        if w[0].0 == w[1].0 {
+            viol.push(format!("selector object {} delivered value {} for action {} and then the same value again for action {}", sub, w[0].0, w[0].1, w[1].1));
+            break;
+        }
+    }
+    let pos_of = |a: ActId| delivered.iter().position(|(_, x)| *x == a);
+    for (store, notes) in &per_store {
+        for (i, (a, v)) in notes.iter().enumerate() {
+            if pos_of(*a).is_some() {
+                continue;
+            }
+            // silent notification: bracket it by its store's delivered neighbours
+            let lo = notes[..i].iter().rev().find_map(|(x, _)| pos_of(*x));
+            let hi = notes[i + 1..].iter().find_map(|(x, _)| pos_of(*x)).unwrap_or(delivered.len());
+            let from = lo.unwrap_or(0);
+            let ok = (from..hi).any(|j| delivered[j].0 == *v);
+            if !ok {
+                viol.push(format!(
+                    "selector object {} stayed silent for action {} of store {} (selected value {}), but between the deliveries of that store's neighbouring notifications (callback log positions {}..{}) the value delivered last was never {}: a notification was lost",
+                    sub, a, store, v, from, hi, v
+                ));
+            }
+        }
+    }
+    viol
+}
